@@ -19,3 +19,19 @@ Print Assumptions C12_verify_never_raises.
 Theorem C12_never_both_kinds : forall o, indent_first (exec veff o None gen_verify) = true.
 Proof. exact never_both_kinds. Qed.
 Print Assumptions C12_never_both_kinds.
+
+(* the line: over the arithmetic of syntax_error.__init__ regenerated on every run *)
+From Pedal Require Import gen.C12_Line_Gen proof.C12_Line.
+
+Theorem C12_reported_line_is_the_parsers_line_plus_offset : forall l off, reported (Some l) off = (l + off, l + off).
+Proof. exact reported_line_is_the_parsers_line_plus_offset. Qed.
+Print Assumptions C12_reported_line_is_the_parsers_line_plus_offset.
+
+Theorem C12_message_and_location_name_the_same_line : forall pl off, fst (reported pl off) = snd (reported pl off).
+Proof. exact message_and_location_name_the_same_line. Qed.
+Print Assumptions C12_message_and_location_name_the_same_line.
+
+Theorem C12_reported_line_without_a_parser_line : forall off, reported None off = (1 + off, 1 + off).
+Proof. exact reported_line_without_a_parser_line. Qed.
+Print Assumptions C12_reported_line_without_a_parser_line.
+
